@@ -234,6 +234,7 @@ class NativeSync:
         out = subprocess.run(["cargo", "test", "--offline", "-p", "steel-core", "--no-default-features", "--features", ws.FEATURES,
                               "--test", "verif_sync_replay", "--no-run", "--target-dir", os.path.join(self.root, "tn"),
                               "--message-format=json"], cwd=self.ws, env=env, capture_output=True, text=True)
+        errs = []
         for line in out.stdout.splitlines():
             try:
                 j = json.loads(line)
@@ -241,9 +242,11 @@ class NativeSync:
                 continue
             if j.get("reason") == "compiler-artifact" and j.get("executable") and j["target"]["name"] == "verif_sync_replay":
                 self.bin = j["executable"]
+            if j.get("reason") == "compiler-message" and j.get("message", {}).get("level") == "error":
+                errs.append(j["message"].get("rendered") or "")
         self.build_s = time.time() - t0
         if not self.bin:
-            raise RuntimeError("native replay build failed (hooks missing in this tree?):\n" + out.stderr[-2500:])
+            raise RuntimeError("native replay build failed (hooks missing in this tree?):\n" + "\n".join(errs)[-2500:] + out.stderr[-800:])
         return self.bin
 
     def run(self, test, env_extra):
@@ -411,3 +414,100 @@ def replay(pid, path):
         return 1
     print("not reproduced on this tree")
     return 0
+
+
+# --------------------------------------------------------------------------- conformance (DESIGN 3.5)
+HOOK_NAMES = {"1": "RETRACT", "2": "SCAN_BEGIN", "3": "SCAN_END", "4": "POLL", "5": "STOP_BEGIN", "6": "RESUME_END", "7": "SPIN", "8": "INTERRUPT_MID"}
+SILENT = {"POLL", "SPIN", "INTERRUPT_MID"}
+
+
+def dump_mir_hooked(tag="mirh"):
+    """The same dump with --cfg steel_verif: the hook calls become observable `hook` nodes.  Used
+    only for the conformance obligations; every verdict comes from the dump WITHOUT the cfg."""
+    wsdir = ws.prepare(tag, [])
+    root = os.path.dirname(wsdir)
+    out = os.path.join(root, "steel_core_hooked.mir")
+    env = dict(os.environ, CARGO_NET_OFFLINE="true")
+    env.pop("RUSTFLAGS", None)
+    with open(out, "w") as f, open(os.path.join(root, "mirh.err"), "w") as e:
+        p = subprocess.run(["cargo", "+nightly", "rustc", "--offline", "-p", "steel-core", "--lib", "--no-default-features",
+                            "--features", ws.FEATURES, "--target-dir", os.path.join(root, "tmirh"), "--",
+                            "-Zunpretty=mir", "-C", "debug-assertions=off", "--cfg", "steel_verif"], cwd=wsdir, stdout=f, stderr=e, env=env)
+    if p.returncode != 0 or os.path.getsize(out) < 1000000:
+        raise mirbmc.ExtractionError("hooked MIR dump failed: " + open(os.path.join(root, "mirh.err")).read()[-1500:])
+    return mir.parse(open(out).read(), lambda n: any(p in n for p in PAT) and ("vm.rs" in n or "closed.rs" in n or "engine.rs" in n or "threads.rs" in n or "impl at" not in n))
+
+
+def parse_traces(out):
+    """TRACE lines of harness/sync_replay.rs::conformance_trace -> list of [(thread index, hook name)],
+    each cut to the window STOP_BEGIN .. RESUME_END of the stopping thread (= thread 0)."""
+    traces = []
+    for line in re.findall(r"TRACE: (.*)", out):
+        ev = [x.split("|") for x in line.strip().split(",") if x]
+        stop = [i for i, e in enumerate(ev) if e[1] == "STOP_BEGIN"]
+        if not stop:
+            continue
+        t0 = ev[stop[0]][0]
+        end = [i for i, e in enumerate(ev) if e[1] == "RESUME_END" and e[0] == t0 and i > stop[0]]
+        if not end:
+            continue
+        win = ev[stop[0]:end[0] + 1]
+        others = sorted({e[0] for e in win if e[0] != t0})
+        if len(others) > 1:
+            continue
+        idx = {t0: 0}
+        if others:
+            idx[others[0]] = 1
+        traces.append([(idx[e[0]], e[1]) for e in win])
+    return traces
+
+
+def conformance(run, native, funcs_h, op, worker, rounds=16, K=64):
+    """Every trace the real engine produces has to be a run of the extracted automata."""
+    name = "conformance: real %s x %s-loop traces are runs of the model" % (op, worker)
+    t0 = time.time()
+    try:
+        b = native.build()
+        p = subprocess.run([b, "conformance_trace", "--exact", "--nocapture", "--test-threads", "1"],
+                           env=dict(os.environ, VERIF_CONF_OP={"set": "set", "gc": "gc"}[op], VERIF_CONF_WORKER=worker, VERIF_CONF_ROUNDS=str(rounds)),
+                           capture_output=True, text=True, timeout=240)
+        traces = parse_traces(p.stdout + p.stderr)
+    except Exception as e:
+        run.ob(name, "inconclusive", reason="trace recording failed: %s" % str(e)[-300:], engine="mir-bmc/z3")
+        return
+    distinct = []
+    for t in traces:
+        if t not in distinct:
+            distinct.append(t)
+    if not distinct:
+        run.ob(name, "inconclusive", reason="no trace recorded: " + (p.stdout + p.stderr)[-300:], engine="mir-bmc/z3")
+        return
+    spec = [("script", [op]), ("script", ["any", "any", "any"])]
+    rejected, solver_s, unknown = [], 0.0, 0
+    for tr in distinct:
+        tr_ids = [(t, h) for t, h in tr if h not in SILENT]
+        bld, progs, n = mirbmc.build_system(funcs_h, spec)
+        for pr in progs:
+            for nd in pr.nodes.values():
+                if nd.k == "hook":
+                    nd.a["id"] = HOOK_NAMES.get(nd.a["id"], nd.a["id"])
+        s = mirbmc.Smt(progs, n, K, trace=tr_ids, silent=SILENT)
+        s.declare()
+        s.init()
+        s.transitions("false")
+        extra = "(assert (= pos_%d %s))" % (K, mirbmc.bv(len(tr_ids), 8))
+        res, vals, dt, text = solve(s, extra, 300)
+        solver_s += dt
+        if res == "unsat":
+            rejected.append(tr)
+        elif res != "sat":
+            unknown += 1
+    common = dict(engine="mir-bmc/z3", wall_s=time.time() - t0, solver_s=round(solver_s, 1), solver_checks=len(distinct))
+    run.samples.append({"conformance": name, "recorded": len(traces), "distinct": len(distinct), "example": ["T%d:%s" % e for e in distinct[0]][:24]})
+    if rejected:
+        run.ob(name, "inconclusive", reason="the model does NOT admit a trace of the real engine (translator or role model wrong): %s" % " ".join("T%d:%s" % e for e in rejected[0])[:600], **common)
+    elif unknown:
+        run.ob(name, "inconclusive", reason="%d conformance queries undecided" % unknown, **common)
+    else:
+        run.ob(name, "pass", nonvacuous=True, note="%d recorded windows, %d distinct, all accepted by the automata (K = %d)" % (len(traces), len(distinct), K), **common)
+    return len(distinct)
